@@ -304,6 +304,8 @@ def _r3(run, fams):
             if e[0] == 'iterate-opaque' and any(re.search(r'\b%s\b' % p, e[1]) for p in opaque) and '[' not in e[1]:
                 bad.append(("%s is iterated as a mapping level by %s: the nesting built by %s is one level short"
                             % (e[1], 'the update routine', add.name), e[2]))
+            if e[0] == 'iterate-record':
+                bad.append(('the data record %s is iterated as a mapping level: the nesting built by %s is one level short' % (e[1], add.name), e[2]))
             if e[0] == 'leaf-subscript' and e[1].startswith('{') and not any(re.fullmatch(p, e[1]) for p in opaque):
                 bad.append(("record key '%s' is read from a mapping level %s: the nesting built by %s is too deep" % (e[2], e[1][:60], add.name), e[3]))
         if bad:
